@@ -2,30 +2,25 @@
 package main
 
 import (
-	"encoding/json"
+	"encoding/hex"
 	"fmt"
-	"math/rand"
+	"runtime/debug"
 
-	"github.com/emitter-io/emitter/verif/drivers/session"
+	"github.com/emitter-io/emitter/verif/bk"
 )
 
 func main() {
-	mk := func(s string) json.RawMessage { return json.RawMessage(s) }
-	walk := []json.RawMessage{
-		mk(`{"n":"connect","c":"c1","u":"u-c1","will":{"on":false}}`),
-		mk(`{"n":"connect","c":"c2","u":"u-c2","will":{"on":true,"k":"kAll","w":["a"],"syn":"ok","retain":false,"p":"will-of-c2"}}`),
-		mk(`{"n":"sub","c":"c1","k":"kAll","w":["a"],"syn":"ok","last":0,"win":"none"}`),
-		mk(`{"n":"sub","c":"c2","k":"kAll","w":["a","b"],"syn":"ok","last":0,"win":"none"}`),
-		mk(`{"n":"pub","c":"c2","k":"kAll","w":["a"],"syn":"ok","me0":false,"ttl":3600,"via":"","retain":false,"qos":1,"p":"before"}`),
-		mk(`{"n":"hostile","c":"c2","cls":"sub-last-huge"}`),
+	b, err := bk.New(bk.Opts{LicenseVer: 1})
+	if err != nil {
+		panic(err)
 	}
-	t, err := session.Replay("emitter", 2, "inmemory", walk, "x", rand.New(rand.NewSource(1)))
-	fmt.Println(err)
-	for _, e := range t.Events {
-		s := string(e)
-		if len(s) > 300 {
-			s = s[:300]
+	payload, _ := hex.DecodeString("7b10030001180009010007090748000900000001000000021418d8414acd81d7430d1948000002612f01010a62616e6e65642d6b657910092204d8d4090810da5b0001100d2d00070d08040918091c04df490d1120000000000000000175")
+	defer func() {
+		if r := recover(); r != nil {
+			fmt.Println("PANIC:", r)
+			fmt.Println(string(debug.Stack()))
 		}
-		fmt.Println(s)
-	}
+	}()
+	_, err = b.Svc.VerifCluster().OnGossip(payload)
+	fmt.Println("err:", err)
 }
